@@ -1830,6 +1830,13 @@ def _rewrite_dict_dispatch(fn: ast.FunctionDef, dict_of) -> bool:
             if isinstance(st, (ast.Return, ast.Assign)) and getattr(st, "value", None) is not None and not (
                     isinstance(st, ast.Assign) and not (len(st.targets) == 1 and isinstance(st.targets[0], ast.Name))):
                 lk0 = lookup(st.value)
+                if lk0 is not None and isinstance(st, ast.Assign):
+                    uses0 = loads.get(st.targets[0].id, [])
+                    par0 = getattr(uses0[0], "_nparent", None) if len(uses0) == 1 else None
+                    only_called = len(uses0) == 1 and stores.get(st.targets[0].id) == 1 and any(
+                        isinstance(c_, ast.Call) and c_.func is uses0[0] for c_ in ast.walk(fn))
+                    if only_called:
+                        lk0 = None          # `h = TABLE.get(k, d)` ... `return h(x)`: written out at the call below
                 if lk0 is not None and stable(lk0[1]) and not isinstance(lk0[1], ast.Constant):
                     rows0, key0, default0 = lk0
 
